@@ -182,6 +182,41 @@ def qr_matrix(rng, k):
     return [[s * rng.gauss(0, 1) for _ in range(n)] for _ in range(n)], "dense"
 
 
+def graded_column_matrix(rng, k):
+    """dense, well-conditioned (kappa < 10): diagonal entries in +-[1,2], a small dense strict upper part, and a strict lower
+    part that is non-zero but only 1e-12..1e-7 of the diagonal (so fl(|x|) == |x0| at every elimination step although the
+    column is not reduced) — or, every fourth member, exactly reduced leading columns (tail exactly 0)."""
+    n = rng.choice([2, 2, 3, 3, 4, 5, 6, 7])
+    eps = rng.choice([3e-9, 4e-9, 1e-7, 1e-8, 1e-10, 1e-11, 1e-12, 3e-9])
+    M = [[0.0] * n for _ in range(n)]
+    for i in range(n):
+        for j in range(n):
+            if i == j:
+                M[i][j] = rng.choice([-1.0, 1.0]) * rng.uniform(1.0, 2.0)
+            elif j > i:
+                M[i][j] = rng.uniform(-0.25, 0.25)
+            else:
+                M[i][j] = eps * rng.uniform(0.5, 1.5) * rng.choice([-1.0, 1.0])
+    c = k % 4
+    fam = "graded-lower"
+    if c == 1:                       # only the first column is graded, the rest is dense
+        for i in range(n):
+            for j in range(1, i):
+                M[i][j] = rng.uniform(-0.25, 0.25)
+        fam = "graded-first-column"
+    elif c == 2 and n >= 3:          # the first column is dense, later columns are graded
+        for i in range(1, n):
+            M[i][0] = rng.uniform(-0.25, 0.25)
+        fam = "graded-later-columns"
+    elif c == 3:                     # exactly reduced leading columns: skipping the reflection would be legitimate
+        m = rng.randint(1, n)
+        for j in range(m):
+            for i in range(j + 1, n):
+                M[i][j] = 0.0
+        fam = "reduced-columns"
+    return M, fam
+
+
 def spectrum(rng, n):
     lam = [rng.choice([-1, 1]) * 10.0 ** rng.uniform(-2, 2)]
     for _ in range(n - 1):
@@ -279,6 +314,9 @@ def generate(tier, seed, ctx):
         R.append(req_matrix("c15.qr", M)); meta[R[-1]] = ("qr", fam)
         if k % 3 == 0:
             R.append(req_matrix("c15.householder", M)); meta[R[-1]] = ("hh", fam)
+    for k in range(240 if thorough else 48):
+        M, fam = graded_column_matrix(rng, k)
+        R.append(req_matrix("c15.qr", M)); meta[R[-1]] = ("qr", fam)
     for n in range(1, 5):                               # singular: a zero column is met (NaN in the C++, not modelled)
         R.append(req_matrix("c15.qr", [[0.0] * n for _ in range(n)]))
     R.append(req_matrix("c15.qr", [[1.0, 2.0], [2.0, 4.0]]))
